@@ -22,7 +22,7 @@ TRUSTED = [
 ]
 ASSUMPTIONS = [
     "formatter input symbolic in [-2^40, 2^40] (negative and over-wide inputs included)",
-    "register table: symbolic values at two enumerated positions, all other registers concrete boundary values; memory tables: every subset of <= 3 written bytes out of 9 candidate byte addresses in three words (first word of the data segment, its neighbour, last word of the address space) with symbolic byte values",
+    "register table: symbolic values at two enumerated positions, all other registers concrete boundary values; memory tables: every subset of <= 3 written bytes (written in ascending, descending and rotated order) out of 9 candidate byte addresses in three words (first word of the data segment, its neighbour, last word of the address space) with symbolic byte values",
 ]
 RULE = "one case = one feasible path of a formatter / table call with symbolic values"
 
@@ -128,7 +128,7 @@ def h_registers(e, i, j):
 CAND = [2**14, 2**14 + 1, 2**14 + 3, 2**14 + 4, 2**14 + 6, 2**14 + 7, 2**32 - 4, 2**32 - 2, 2**32 - 1]
 
 
-def h_memory(e, subset, cached):
+def h_memory(e, subset, cached, order="asc"):
     """data-memory table after writing the bytes `subset` (indices into CAND) with symbolic values"""
     from architecture_simulator.simulation.riscv_simulation import RiscvSimulation
     from symx.state import fx, cache_options
@@ -137,7 +137,12 @@ def h_memory(e, subset, cached):
     sim = RiscvSimulation(data_cache=cache_options(True, 1, 0, 2, "wt", "lru", 0)) if cached else RiscvSimulation()
     mem = sim.state.memory
     written = {}
-    for n_, k in enumerate(subset):
+    seq = list(enumerate(subset))
+    if order == "desc":
+        seq.reverse()
+    elif order == "rot" and len(seq) > 1:
+        seq = seq[1:] + seq[:1]
+    for n_, k in seq:
         v = e.int("b%d" % n_, 0, 255)
         mem.write_byte(CAND[k], f.UInt8(v), True) if cached else mem.write_byte(CAND[k], f.UInt8(v))
         written[CAND[k]] = v
@@ -191,7 +196,8 @@ def jobs(tier, seed):
     for k, s in enumerate(subsets):
         if tier == "quick" and len(s) == 3 and (k + seed) % 4 != 0:
             continue
-        out.append({"label": "memory-%s" % "_".join(map(str, s)), "harness": "memory", "args": {"subset": list(s), "cached": bool(len(s) and k % 5 == 0)}, "cost": 2, "validate_every": 2})
+        for order in (("asc",) if len(s) < 2 else ("asc", "desc") if len(s) == 2 else ("asc", "desc", "rot")):
+            out.append({"label": "memory-%s-%s" % ("_".join(map(str, s)), order), "harness": "memory", "args": {"subset": list(s), "cached": bool(len(s) and k % 5 == 0), "order": order}, "cost": 2, "validate_every": 2})
     out.append({"label": "toy", "harness": "toy", "args": {}, "cost": 5})
     return out
 
